@@ -217,6 +217,7 @@ def same_cell(got, exp):
     return (not is_blank_lib(got)) and type(got) in (int, float) and not isinstance(got, bool) and got == exp
 
 
+_EARLIER_TITLES = set()
 _UID = re.compile(r'^_(\d+)_(\d+)_(\d+)$')
 
 
@@ -509,9 +510,15 @@ def run_book(ctx, bi, far):
     # ---- unknown titles must be rejected ------------------------------------------------------------
     if not far:
         bad_titles = ['Nope', 'No pe', titles[0] + 'x', titles[0][:-1] or 'q', 'S1 ', ' ' + titles[0], 'Sheet', titles[-1] + '1', 'Лист', '0']
+        # ... and titles that EARLIER workbooks of this process had and this one has not (a sheet of last month's file): as unknown as any
+        bad_titles = [t_ for t_ in sorted(_EARLIER_TITLES) if t_ not in titles][:4] + bad_titles
+        _EARLIER_TITLES.update(titles)
         bad_titles = [b for b in dict.fromkeys(bad_titles) if b not in titles and b.strip() and b.lower() not in [t.lower() for t in titles]]
         bcells = {}
-        for i, b in enumerate(rng.sample(bad_titles, min(4, len(bad_titles)))):
+        earlier_ = [b for b in bad_titles if b in _EARLIER_TITLES][:2]
+        if earlier_:
+            r.count('unknown_titles_known_to_earlier_workbooks', len(earlier_))
+        for i, b in enumerate(earlier_ + rng.sample([b for b in bad_titles if b not in earlier_], min(4 - len(earlier_), len([b for b in bad_titles if b not in earlier_])))):
             q = "'" + b + "'!" if not (_WORD.match(b) and rng.random() < 0.5 and not b[0].isdigit()) else b + '!'
             body = rng.choice(['A1', '$B$2', 'A1:A3', 'A1:C2', 'A:A', 'A:B'])
             wrap = rng.choice(['={}', '=SUM({})', '=1+{}', '=IF(1>0,2,{})', '=COUNT(A1,{})'])
